@@ -29,6 +29,16 @@
 #include <errno.h>
 #include <unistd.h>
 #include "sched.h"
+#ifdef VERIF_IMPLCOV
+extern "C" void __gcov_dump(void);   // line-coverage measurement (tools/implcov.py): a forked schedule process leaves through _exit, which loses the counters
+#endif
+void nv_leave(int code)
+{
+#ifdef VERIF_IMPLCOV
+  __gcov_dump();
+#endif
+  _exit(code);
+}
 
 enum { MAXT = 16, MAXOBJ = 256 };
 enum OpKind { OP_NONE, OP_START, OP_LOCK, OP_TRYLOCK, OP_UNLOCK, OP_CWAIT, OP_CWAKE, OP_RELOCK, OP_SIGNAL, OP_BCAST, OP_JOIN, OP_YIELD, OP_ATOMIC, OP_CONT, OP_EXIT };
@@ -53,19 +63,20 @@ static long steps = 0, maxSteps = 100000;
 static int* prefix = 0; static int nprefix = 0; static int* devStep = 0; static int* devThread = 0; static int ndev = 0; static int policy = 0; // 0 = non-preemptive (stay, else lowest id), 1 = random
 static int lastThread = 0, sameCount = 0;
 static long clockCalls = 0; static long tickMs = 0;
+static unsigned createFailMask = 0; static int workerCreates = 0; // environment choice: which worker-thread creations fail (request option cf=<mask>)
 static int splitMode = 0; // 1: the code that follows a synchronisation operation (plain accesses up to the next operation) is a step of its own
 
 static VMutex* M(void* a)
 {
   for(int i = 0; i < nmtx; ++i) if(mtx[i].addr == a && mtx[i].live) return &mtx[i];
-  if(nmtx >= MAXOBJ) { printf("X too many mutexes\n"); fflush(stdout); _exit(7); }
+  if(nmtx >= MAXOBJ) { printf("X too many mutexes\n"); fflush(stdout); nv_leave(7); }
   VMutex* m = &mtx[nmtx++]; m->addr = a; m->owner = -1; m->count = 0; m->recursive = false; m->live = true; return m;
 }
 static VCond* CV(void* a, bool create)
 {
   for(int i = 0; i < ncnd; ++i) if(cnd[i].addr == a && cnd[i].live) return &cnd[i];
   if(!create) return 0;
-  if(ncnd >= MAXOBJ) { printf("X too many condvars\n"); fflush(stdout); _exit(7); }
+  if(ncnd >= MAXOBJ) { printf("X too many condvars\n"); fflush(stdout); nv_leave(7); }
   VCond* c = &cnd[ncnd++]; c->addr = a; c->live = true; c->gen = ++condGen; return c;
 }
 static void finish(const char* verdict, int code)
@@ -73,7 +84,7 @@ static void finish(const char* verdict, int code)
   printf("V %s steps=%ld\n", verdict, steps);
   sched_on_end(verdict);
   fflush(stdout);
-  _exit(code);
+  nv_leave(code);
 }
 static bool enabled(int t)
 {
@@ -187,7 +198,7 @@ int nv_pthread_cond_wait(pthread_cond_t* c, pthread_mutex_t* m)
   point(OP_RELOCK, m); v = M(m); v->owner = self; v->count = saved; out("relock", m, 0); post();
   pthread_mutex_unlock(&G); return 0;
 }
-int nv_pthread_cond_timedwait(pthread_cond_t*, pthread_mutex_t*, const struct timespec*) { printf("X timedwait-not-simulated\n"); fflush(stdout); _exit(7); }
+int nv_pthread_cond_timedwait(pthread_cond_t*, pthread_mutex_t*, const struct timespec*) { printf("X timedwait-not-simulated\n"); fflush(stdout); nv_leave(7); }
 int nv_pthread_cond_signal(pthread_cond_t* c)
 {
   pthread_mutex_lock(&G); point(OP_SIGNAL, c);
@@ -214,7 +225,14 @@ static void* tramp(void* p)
 int nv_pthread_create(pthread_t* outh, const pthread_attr_t*, void*(*fn)(void*), void* arg)
 {
   pthread_mutex_lock(&G);
-  if(nth >= MAXT) { printf("X too many threads\n"); fflush(stdout); _exit(7); }
+  if(nth >= MAXT) { printf("X too many threads\n"); fflush(stdout); nv_leave(7); }
+  if(self != 0)
+  { // a worker of the pool is being created: the environment may refuse (EAGAIN).  The thread id is consumed (the slot stays unused),
+    // there is no scheduling point: the caller just sees the error code.
+    int k = workerCreates++;
+    if(k < 32 && ((createFailMask >> k) & 1u))
+    { int id = nth++; memset(&th[id], 0, sizeof(th[id])); printf("E %d create-failed t%d\n", self, id); pthread_mutex_unlock(&G); return EAGAIN; }
+  }
   int id = nth++; VThread& T = th[id]; memset(&T, 0, sizeof(T)); T.used = true; sem_init(&T.go, 0, 0); T.fn = fn; T.arg = arg; T.pend = OP_START;
   pthread_attr_t at; pthread_attr_init(&at); pthread_attr_setstacksize(&at, 256 * 1024);
   pthread_create(&T.real, &at, tramp, (void*)(long)id); *outh = (pthread_t)(long)(id + 1000);
@@ -243,6 +261,7 @@ void nv_result(const volatile void* p, unsigned long long value)
   printf("O %s %s %lld\n", th[self].akind, n, sched_value((const void*)p, value)); post(); pthread_mutex_unlock(&G);
 }
 }
+void sched_set_create_failures(unsigned mask) { createFailMask = mask; workerCreates = 0; }
 void sched_set_devs(const int* st, const int* thr, int n)
 {
   devStep = (int*)malloc(sizeof(int) * (n + 1)); devThread = (int*)malloc(sizeof(int) * (n + 1)); ndev = n;
